@@ -234,6 +234,7 @@ theorem pairing_addAt (K S : ℕ) (G δΘ : Params R) (k0 s0 : ℕ) (hk : k0 < K
 def PGate.WF : PGate n R → Prop
   | .unitary _ t => Injective t
   | .control _ isCtrl rest tNew => Injective rest ∧ Injective tNew ∧ ∀ i, isCtrl i = false ↔ ∃ m, rest m = i
+  | .custom _ _ => True
 
 /-- `U†U = 1` -/
 def IsUnitaryMat (U : MatK k R) : Prop := Uᴴ * U = 1
@@ -242,12 +243,51 @@ def IsUnitaryMat (U : MatK k R) : Prop := Uᴴ * U = 1
 def PGate.IsUnitary (Θ : Params R) : PGate n R → Prop
   | .unitary src _ => IsUnitaryMat (src.get Θ)
   | .control src _ _ _ => IsUnitaryMat (src.get Θ)
+  | .custom src _ => star (scalarOf (src.get Θ)) * scalarOf (src.get Θ) = 1
 
 /-- the slot a parametrised gate reads lies in the range the pairing sums over -/
 def PGate.InRange (K S : ℕ) : PGate n R → Prop
   | .unitary (k := k) (.param s) _ => k < K ∧ s < S
   | .control (k := k) (.param s) _ _ _ => k < K ∧ s < S
+  | .custom (.param s) _ => 0 < K ∧ s < S
   | _ => True
+
+/-! #### the diagonal-phase custom gate -/
+
+theorem sum_bits0 (f : Bits 0 → Bits 0 → R) : (∑ a, ∑ b, f a b) = f (fun i => i.elim0) (fun i => i.elim0) := by
+  have hu : ∀ a : Bits 0, a = fun i => i.elim0 := fun a => funext fun i => i.elim0
+  rw [Fintype.sum_eq_single (fun i : Fin 0 => i.elim0) (fun a ha => absurd (hu a) ha),
+    Fintype.sum_eq_single (fun i : Fin 0 => i.elim0) (fun a ha => absurd (hu a) ha)]
+
+/-- un-applying a unit-modulus phase: `conj(ψ·a)·a = conj ψ` -/
+theorem unapply_custom (a : R) (ha : star a * a = 1) (d : Bits n → Bool) (ψ : Vec n R) :
+    customApply a d (conjVec (customApply a d ψ)) = conjVec ψ := by
+  funext x
+  simp only [customApply, conjVec, conj]
+  split
+  · rw [star_mul', mul_assoc, ha, mul_one]
+  · rfl
+
+/-- the cotangent rule `q0_grad[idx,idx] *= conj(a)` is the adjoint of the forward map -/
+theorem vdot_customApply (a : R) (d : Bits n → Bool) (g ψ : Vec n R) :
+    vdot (customApply (conj a) d g) ψ = vdot g (customApply a d ψ) := by
+  rw [vdot_eq, vdot_eq]
+  refine sum_congr rfl fun x _ => ?_
+  simp only [customApply, conj]
+  split
+  · rw [star_mul', star_star]; ring
+  · rfl
+
+/-- `op_grad = Σ_diag conj(ψ)·g` paired with `δa` is the cotangent paired with the first-order change of the output -/
+theorem vdot_custom_op (d : Bits n → Bool) (δa : R) (g ψ : Vec n R) :
+    star (sumBits n fun x => if d x then conjVec ψ x * g x else 0) * δa
+      = vdot g (fun x => if d x then ψ x * δa else 0) := by
+  rw [vdot_eq, sumBits_eq_sum, star_sum, sum_mul]
+  refine sum_congr rfl fun x _ => ?_
+  simp only [conjVec, conj]
+  split
+  · rw [star_mul', star_star]; ring
+  · simp
 
 theorem sweep_vjp (K S : ℕ) (Θ δΘ : Params R) (gates : List (PGate n R))
     (hwf : ∀ g ∈ gates, g.WF) (hun : ∀ g ∈ gates, g.IsUnitary Θ) (hr : ∀ g ∈ gates, g.InRange K S)
@@ -321,6 +361,31 @@ theorem sweep_vjp (K S : ℕ) (Θ δΘ : Params R) (gates : List (PGate n R))
         simp only [Src.get] at this
         rw [this]
         simp only [PGate.apply, PGate.dapply, Src.get]
+        ring
+    | custom src d =>
+      have hq : customApply (scalarOf (src.get Θ)) d r.1 = conjVec ψ0 := by
+        rw [ih1]; exact unapply_custom _ gun d ψ0
+      refine ⟨hq, ?_⟩
+      have hstate : vdot (customApply (conj (scalarOf (src.get Θ))) d r.2.1) δψ
+          = vdot r.2.1 (customApply (scalarOf (src.get Θ)) d δψ) := vdot_customApply _ d r.2.1 δψ
+      cases src with
+      | fixed U =>
+        show pairing K S r.2.2 δΘ + vdot (customApply (conj (scalarOf U)) d r.2.1) δψ = _
+        rw [show scalarOf U = scalarOf (Src.get Θ (Src.fixed U)) from rfl, hstate]
+        simp only [PGate.apply, PGate.dapply, vdot_zero_right, add_zero, Src.get]
+      | param s =>
+        obtain ⟨hk, hs⟩ := grange
+        show pairing K S (addAt r.2.2 0 s (fun _ _ => sumBits n fun x =>
+            if d x then customApply (scalarOf (Θ 0 s)) d r.1 x * r.2.1 x else 0)) δΘ
+          + vdot (customApply (conj (scalarOf (Θ 0 s))) d r.2.1) δψ = _
+        have hq' : customApply (scalarOf (Θ 0 s)) d r.1 = conjVec ψ0 := hq
+        rw [hq', pairing_addAt K S _ δΘ 0 s hk hs, sum_bits0]
+        have h3 := vdot_custom_op d (scalarOf (δΘ 0 s)) r.2.1 ψ0
+        have := hstate
+        simp only [Src.get] at this
+        rw [this]
+        simp only [PGate.apply, PGate.dapply, Src.get]
+        rw [show δΘ 0 s (fun i => i.elim0) (fun i => i.elim0) = scalarOf (δΘ 0 s) from rfl, h3]
         ring
 
 /-! ### exact second-order expansion of one gate: what `dforward` uses is its first-order part -/
@@ -884,6 +949,44 @@ theorem slotOf_injective (gs : List GateDesc) (i j : ℕ) (hi : i < gs.length) (
 
 /-! ### the array-level folds of the driver are the modelled folds (audit M6) -/
 
+theorem getElem?_idxOf_self {β : Type} [DecidableEq β] (l : List β) (a : β) (h : a ∈ l) : l[l.idxOf a]? = some a := by
+  have hlt : l.idxOf a < l.length := List.idxOf_lt_length_iff.2 h
+  rw [List.getElem?_eq_getElem hlt, List.getElem_idxOf]
+
+/-- **the row stacking of `CircuitTorchWrapper.forward` agrees with the row numbers of `_setup`**: the row `r` that
+`ind_gate_to_info[i]['ind_torch']` names is, in `concat([theta rows, placeholder rows])`, the row of gate `i`'s own object
+(trainable gate) resp. of gate `i` itself (placeholder gate). -/
+theorem stack_row_of_slot (gs : List GateDesc) (i : ℕ) (hi : i < gs.length) (nm : String) (r : ℕ)
+    (h : slotOf gs i = some (nm, r)) :
+    (stackTags gs nm)[r]? = some (if gs[i].placeholder then (true, i) else (false, gs[i].objId)) := by
+  unfold slotOf at h
+  rw [List.getElem?_eq_getElem hi] at h
+  simp only at h
+  unfold stackTags
+  by_cases hp : gs[i].placeholder = true
+  · rw [if_pos hp] at h
+    simp only [Option.some.injEq, Prod.mk.injEq] at h
+    obtain ⟨hn, hr⟩ := h
+    subst hn
+    rw [if_pos hp, ← hr, List.getElem?_append_right (by simp)]
+    simp only [List.length_map, Nat.add_sub_cancel, List.getElem?_map]
+    rw [getElem?_idxOf_self _ _ (mem_placeholderPositions gs _ i hi hp rfl)]
+    rfl
+  · rw [if_neg hp] at h
+    by_cases ht : gs[i].trainable = true
+    · rw [if_pos ht] at h
+      simp only [Option.some.injEq, Prod.mk.injEq] at h
+      obtain ⟨hn, hr⟩ := h
+      subst hn
+      have hm := mem_firstComeIds gs gs[i].name gs[i] (List.getElem_mem hi) ht (by simpa using hp) rfl
+      have hlt : (firstComeIds gs gs[i].name).idxOf gs[i].objId < (firstComeIds gs gs[i].name).length :=
+        List.idxOf_lt_length_iff.2 hm
+      rw [if_neg hp, ← hr, List.getElem?_append_left (by simpa using hlt)]
+      simp only [List.getElem?_map]
+      rw [getElem?_idxOf_self _ _ hm]
+      rfl
+    · rw [if_neg ht] at h; exact absurd h (by simp)
+
 section bridge
 variable {α : Type} [Add α] [Mul α] [Zero α] [Conj α] {n : Nat}
 
@@ -984,6 +1087,14 @@ theorem absSt_backA (Θ : Params α) (gate : PGate n α) (st : StA α) (hc : gat
       show addAt _ _ s0 _ k s = _
       rw [addAt_other _ _ _ _ _ _ (fun hh => hks ⟨e, he, h1.trans hh.1.symm, h2.trans hh.2.symm⟩)]
       exact habs k s hks
+  | custom src d =>
+    cases src with
+    | fixed U => exact habs k s hks
+    | param s0 =>
+      obtain ⟨e, he, h1, h2⟩ := hc
+      show addAt _ _ s0 _ k s = _
+      rw [addAt_other _ _ _ _ _ _ (fun hh => hks ⟨e, he, h1.trans hh.1.symm, h2.trans hh.2.symm⟩)]
+      exact habs k s hks
 
 theorem covered_backA (Θ : Params α) (g g' : PGate n α) (st : StA α) (h : g.Covered st.2.2) :
     g.Covered (g'.backA Θ st).2.2 := by
@@ -993,6 +1104,9 @@ theorem covered_backA (Θ : Params α) (g g' : PGate n α) (st : StA α) (h : g.
     | fixed U => trivial
     | param s0 => exact (keys_map _ _ _ _).2 h
   | control src c r tn => cases src with
+    | fixed U => trivial
+    | param s0 => exact (keys_map _ _ _ _).2 h
+  | custom src d => cases src with
     | fixed U => trivial
     | param s0 => exact (keys_map _ _ _ _).2 h
 
@@ -1018,6 +1132,10 @@ theorem coveredB_iff (tab : ParamTable α) (g : PGate n α) : g.coveredB tab = t
     | param s0 =>
       simp only [PGate.coveredB, PGate.Covered, List.any_eq_true, Bool.and_eq_true, beq_iff_eq]
   | control src c r tn => cases src with
+    | fixed U => simp [PGate.coveredB, PGate.Covered]
+    | param s0 =>
+      simp only [PGate.coveredB, PGate.Covered, List.any_eq_true, Bool.and_eq_true, beq_iff_eq]
+  | custom src d => cases src with
     | fixed U => simp [PGate.coveredB, PGate.Covered]
     | param s0 =>
       simp only [PGate.coveredB, PGate.Covered, List.any_eq_true, Bool.and_eq_true, beq_iff_eq]
